@@ -21,6 +21,7 @@ REGEXES = ("foo", "FOO", "o", "^x", "", "é", ".*", "^$", " ", "\\Soo")  # '.*' 
 SELECTS = (None, (), ("title",), ("missing",), ("num",), ("missing", "title"))
 EVENT_DATA = (
     {"title": "foo bar", "app": "Editor"},
+    {"app": "foo bar", "title": "Editor"},  # the same strings in the same order under the OTHER keys (seeded: per-call memo keyed by the values only)
     {"title": "FOO", "app": "x-app"},
     {"title": "xé", "num": 1},
     {"num": 1},
@@ -31,7 +32,7 @@ EVENT_DATA = (
     {"url": "http://x", "$domain": "foo.org", "$protocol": "http"},  # as split_url_events leaves it: a string under a $-key is a value like any other
 )
 BOUNDS = {
-    "quick": {"rule_alphabet": "4 categories x 10 regexes x 2 ignore_case x 6 select_keys = 480 rules", "rule_lists": "all ordered lists of <=2 rules (187k) + all ordered lists of 3 rules over two 24-rule alphabets (one without, one with differing select_keys; 13.8k each) + all lists of 4 over 9 rules (6.5k); each list is used for categorize, tag (rules rebuilt from the same dicts) and categorize again (same Rule objects)", "events": "9 event shapes in one list", "urls": "2x3x2x2x2x2 components", "titles": "prefix x marker x fps x app-present product"},
+    "quick": {"rule_alphabet": "4 categories x 10 regexes x 2 ignore_case x 6 select_keys = 480 rules", "rule_lists": "all ordered lists of <=2 rules (187k) + all ordered lists of 3 rules over two 24-rule alphabets (one without, one with differing select_keys; 13.8k each) + all lists of 4 over 9 rules (6.5k); each list is used for categorize, tag (rules rebuilt from the same dicts) and categorize again (same Rule objects)", "events": "10 event shapes in one list", "urls": "2x3x2x2x2x2 components", "titles": "prefix x marker x fps x app-present product"},
     "thorough": {"rule_lists": "additionally all ordered lists of 3 rules over 72 rules (373k)", "rest": "as quick"},
 }
 RULE = (
